@@ -537,3 +537,128 @@ func init() {
 		},
 	}
 }
+
+var cmpOps = []string{"Lt", "Gt", "Lte", "Gte", "ElEq", "ElNe"}
+var unaryOps = []string{"Neg", "Inv", "Square", "Cube", "Abs", "Sign", "Clamp", "Sqrt", "Cbrt", "InvSqrt", "Exp", "Log", "Log2", "Log10", "Tanh"}
+
+func init() {
+	props["C11"] = &propDef{
+		ID:       "C11",
+		Anchored: []string{"tensor.Lt", "tensor.Gt", "tensor.Lte", "tensor.Gte", "tensor.ElEq", "tensor.ElNe", "StdEng).Lt", "StdEng).Gt", "StdEng).ElEq", "StdEng).ElNe", "StdEng).Lte", "StdEng).Gte", "execution.Lt", "execution.Gt", "execution.Eq", "execution.Ne", "execution.Lte", "execution.Gte", "Same"},
+		Bounds: map[string]interface{}{"elements_and_scalar": "symbolic over the whole dtype range (NaN, equal pairs and extremes are inside)",
+			"matrix_quick": "6 comparisons x 17 dtypes (ordered ops on ordered types; equality on all comparable types incl. bool, complex, string, uintptr) x {TT,TS,ST} x {bool, same-type, unsafe, reuse-bool, reuse-same} on contiguous (2,2) (rotating variants), one-element shapes, and layout pairs for int64/float64/int8",
+			"strings": "ElEq/ElNe with symbolic strings; Lt..Gte on strings are not executed (ordering of symbolic strings is not encoded)"},
+		Instances: func(tier string, seed int64) []Instance {
+			var out []Instance
+			variants := []string{"bool", "same", "unsafe", "reuse-bool", "reuse-same"}
+			add := func(dt, op, form string, sh []int, la, lb, api, variant, ld string) {
+				if !layoutOK(sh, la) || (form == "TT" && !layoutOK(sh, lb)) || !layoutOK(sh, ld) {
+					return
+				}
+				if dt == "string" && op != "ElEq" && op != "ElNe" {
+					return
+				}
+				out = append(out, mkInst("vhC11Cmp", map[string]interface{}{"dtype": dt, "op": op, "form": form, "shape": sh, "la": la, "lb": lb, "api": api, "variant": variant, "ld": ld},
+					"dtype", "op", "form", "shape", "la", "lb", "api", "variant", "ld"))
+			}
+			n := 0
+			for _, op := range cmpOps {
+				for _, dt := range allDtypes {
+					for fi, form := range []string{"TT", "TS", "ST"} {
+						for vi, v := range variants {
+							n++
+							if tier == "quick" && (n+fi+vi)%3 != 0 && !(v == "bool" && form == "TT") {
+								continue
+							}
+							add(dt, op, form, []int{2, 2}, "C", "C", []string{"func", "method"}[n%2], v, "C")
+						}
+					}
+					for si, sh := range [][]int{{}, {1}, {1, 1}} {
+						for vi, v := range []string{"bool", "same", "reuse-same"} {
+							add(dt, op, []string{"TT", "TS", "ST"}[(n+si+vi)%3], sh, "C", "C", []string{"func", "method"}[(n+si)%2], v, "C")
+						}
+					}
+				}
+			}
+			ldts := []string{"int64", "float64", "int8"}
+			if tier == "thorough" {
+				ldts = ordDtypes
+			}
+			for _, dt := range ldts {
+				for oi, op := range cmpOps {
+					for i, la := range opndLayouts {
+						for j, lb := range opndLayouts {
+							if tier == "quick" && dt == "int8" && (i+j)%2 != 0 {
+								continue
+							}
+							v := variants[(i+j+oi)%len(variants)]
+							add(dt, op, "TT", []int{2, 3}, la, lb, []string{"func", "method"}[(i+j)%2], v, []string{"C", "S"}[(i+oi)%2])
+							if tier == "thorough" {
+								for _, v2 := range variants {
+									add(dt, op, "TT", []int{2, 3}, la, lb, "func", v2, "C")
+								}
+							}
+						}
+						add(dt, op, "TS", []int{2, 3}, la, "C", "func", variants[(i+oi)%len(variants)], "C")
+						add(dt, op, "ST", []int{2, 3}, la, "C", "method", variants[(i+oi+1)%len(variants)], "C")
+					}
+				}
+			}
+			return out
+		},
+	}
+	props["C12"] = &propDef{
+		ID:       "C12",
+		Anchored: []string{"tensor.Neg", "tensor.Inv", "tensor.Square", "tensor.Cube", "tensor.Abs", "tensor.Sign", "tensor.Clamp", "tensor.Sqrt", "tensor.Cbrt", "tensor.InvSqrt", "tensor.Exp", "tensor.Log", "tensor.Tanh", "unaryCheck", "prepDataUnary", ").Apply", "StdEng).Map", "execution.Map", "execution.Neg", "execution.Abs", "execution.Clamp", "execution.Sign", "execution.Sqrt", "execution.Inv", "execution.Square", "execution.Cube"},
+		Bounds: map[string]interface{}{"elements": "symbolic over the whole dtype range; clamp bounds symbolic with lo<=hi, not NaN", "exact": "Neg, Inv, Square, Cube, Abs, Sign, Clamp, Sqrt, InvSqrt are decided exactly (bit-vector / IEEE)",
+			"transcendental": "Exp, Log, Log2, Log10, Tanh, Cbrt and complex Sqrt are uninterpreted functions of the element type's routine (float32: math32.F(x) or float32(math.F(float64(x))) accepted)",
+			"matrix_quick": "15 ops x 14 numeric dtypes on contiguous (2,2) safe mode; operand layouts {C,T,S,SS,M} x modes {safe,unsafe,reuse,incr,reuse==operand} for float64/int/int8/float32; Apply with an uninterpreted user function", "int_inv_zero": "assumed away (1/0 panics in Go)"},
+		Instances: func(tier string, seed int64) []Instance {
+			var out []Instance
+			add := func(dt, op string, sh []int, la, mode, ld string) {
+				if !layoutOK(sh, la) || !layoutOK(sh, ld) {
+					return
+				}
+				out = append(out, mkInst("vhC12Unary", map[string]interface{}{"dtype": dt, "op": op, "shape": sh, "la": la, "mode": mode, "ld": ld}, "dtype", "op", "shape", "la", "mode", "ld"))
+			}
+			modes := []string{"", "unsafe", "reuse", "incr", "reuseA"}
+			for _, op := range unaryOps {
+				for _, dt := range numDtypes {
+					add(dt, op, []int{2, 2}, "C", "", "C")
+					add(dt, op, []int{}, "C", "", "C")
+				}
+			}
+			ldts := []string{"float64", "int", "int8", "float32"}
+			if tier == "thorough" {
+				ldts = numDtypes
+			}
+			n := 0
+			for _, dt := range ldts {
+				for _, op := range unaryOps {
+					for li, la := range opndLayouts {
+						for mi, mode := range modes {
+							n++
+							if tier == "quick" && (n+li+mi)%3 != 0 && !(dt == "float64" && (op == "Abs" || op == "Neg" || op == "Clamp")) {
+								continue
+							}
+							add(dt, op, []int{2, 3}, la, mode, []string{"C", "S"}[(li+mi)%2])
+						}
+					}
+				}
+			}
+			for _, dt := range []string{"float64", "int", "float32", "uint8", "int16"} {
+				for _, la := range opndLayouts {
+					for mi, mode := range []string{"", "unsafe", "reuse", "incr"} {
+						out = append(out, mkInst("vhC12Apply", map[string]interface{}{"dtype": dt, "shape": []int{2, 3}, "la": la, "mode": mode, "ld": []string{"C", "S"}[mi%2]}, "dtype", "la", "mode", "ld"))
+					}
+				}
+			}
+			for _, op := range unaryOps {
+				for _, dt := range []string{"bool", "string"} {
+					out = append(out, mkInst("vhC12Refuse", map[string]interface{}{"op": op, "dtype": dt}, "op", "dtype"))
+				}
+			}
+			return out
+		},
+	}
+}
